@@ -9,12 +9,13 @@ namespace Pdlv
 
 /-! ### what a context entry promises about the final value -/
 
-/-- `all`: the field list, `pl`: the payload length, `v`: the decoded value -/
-def Fact (all : Items) (pl : Nat) (v : Value) : Key → Nat → Prop
+/-- `all`: the field list, `is`: the items still to come, `pl`: the payload length, `v`: the decoded value -/
+def Fact (all is : Items) (pl : Nat) (v : Value) : Key → Nat → Prop
   | .size t, y =>
     (t = "_payload_" → ∀ m, payloadMode all = some (.sized m) → y = pl + m) ∧
     (t ≠ "_payload_" → sizeOfTarget all t pl v = .ok y)
   | .count t, y => ∃ vs, listField v t = .ok vs ∧ vs.length = y
+  | .val id, y => ∀ oid cval, (id, oid, cval) ∈ optItems is → (isPresent v oid = true ↔ y = cval)
   | _, _ => True
 
 /-! ### arithmetic: a group is the sum of its fields -/
@@ -157,7 +158,7 @@ theorem chunk_exact (idealD : Bool) (all later : Items) (pl : Nat) (v : Value)
       (∀ f ∈ fs, bfExact later f = true) → (chunkKeys fs).Nodup →
       decChunkFields idealD fs shift chunk st = .ok st' →
       (∀ id x, (id, x) ∈ st'.fields → v.get? id = some x) →
-      (∀ k ∈ chunkKeys fs, ∀ y, st'.ctx.get k = some y → Fact all pl v k y) →
+      (∀ k ∈ chunkKeys fs, ∀ y, st'.ctx.get k = some y → Fact all later pl v k y) →
       encChunkFields true all pl v fs shift acc =
         .ok (acc + ((chunk / 2 ^ shift) % 2 ^ (chunkBits fs)) * 2 ^ shift)
   | [], shift, chunk, acc, st, st', _, _, _, _, _ => by
@@ -211,7 +212,48 @@ theorem chunk_exact (idealD : Bool) (all later : Items) (pl : Nat) (v : Value)
         rw [← heq]; exact this
       · cases hd
     | reserved w => simp [bfExact] at hf
-    | flag id o => simp [bfExact] at hf
+    | flag id opts =>
+      simp only [bfExact, Bool.and_eq_true, Bool.not_eq_true', List.isEmpty_eq_false_iff, List.all_eq_true, decide_eq_true_eq,
+        List.contains_iff_mem] at hf
+      obtain ⟨⟨hne, hle⟩, hin⟩ := hf
+      simp only [chunkKeys, List.nodup_cons] at hnd
+      simp only [BitField.width] at hx
+      obtain ⟨_, _, hctx⟩ := decChunkFields_mono idealD fs _ chunk _ st' hd
+      have hget : st'.ctx.get (.val id) = some ((chunk / 2 ^ shift) % 2 ^ 1) := by
+        rw [hctx _ hnd.1]; simp [Ctx.get, List.lookup, BitField.width]
+      have hfa := hfact (.val id) (by simp [chunkKeys]) _ hget
+      simp only [Fact] at hfa
+      generalize hxx : (chunk / 2 ^ shift) % 2 ^ 1 = x at hfa hx ⊢
+      have hx1 : x ≤ 1 := by omega
+      cases opts with
+      | nil => exact absurd rfl hne
+      | cons o rs =>
+        obtain ⟨oid, setv⟩ := o
+        simp only
+        have key : ∀ k val, (k, val) ∈ (oid, setv) :: rs → (isPresent v k = true ↔ x = val) ∧ val ≤ 1 :=
+          fun k val hm => ⟨hfa k val (hin (k, val) hm), hle (k, val) hm⟩
+        have hno : ¬ (((oid, setv) :: rs).length ≥ 2 ∧
+            (((oid, setv) :: rs).any fun (k, val) => if val = 1 then !isPresent v k else isPresent v k) = true ∧
+            (((oid, setv) :: rs).any fun (k, val) => if val = 1 then isPresent v k else !isPresent v k) = true) := by
+          intro ⟨_, hz, ho⟩
+          simp only [List.any_eq_true] at hz ho
+          obtain ⟨⟨k0, v0⟩, hm0, hz0⟩ := hz
+          obtain ⟨⟨k1, v1⟩, hm1, ho1⟩ := ho
+          obtain ⟨a0, b0⟩ := key k0 v0 hm0
+          obtain ⟨a1, b1⟩ := key k1 v1 hm1
+          simp only at hz0 ho1
+          by_cases p0 : isPresent v k0 = true <;> by_cases p1 : isPresent v k1 = true <;>
+            simp_all <;> omega
+        rw [if_neg hno]
+        obtain ⟨a, b⟩ := key oid setv (List.mem_cons_self ..)
+        have hbit : (if isPresent v oid = true then setv else 1 - setv) = x := by
+          by_cases p : isPresent v oid = true
+          · simp only [p, ↓reduceIte]; exact (a.mp p).symm
+          · have : ¬ x = setv := fun h => p (a.mpr h)
+            simp only [p, Bool.false_eq_true, ↓reduceIte]; omega
+        rw [hbit]
+        have := rest _ hd hnd.2 (fun k hk => by simp [chunkKeys, hk])
+        simpa [BitField.width, hxx] using this
     | elemSize t w => simp [bfExact] at hf
     | size t w m =>
       simp only [chunkKeys, List.nodup_cons] at hnd
@@ -594,7 +636,11 @@ theorem bfExact_consumes (later : Items) : ∀ (fs : List BitField) (k : Key), (
       rcases hk with rfl | hk
       · exact Or.inl ⟨id, rfl⟩
       · exact ih hk
-    | flag id o => simp [bfExact] at hf
+    | flag id o =>
+      simp only [chunkKeys, List.mem_cons] at hk
+      rcases hk with rfl | hk
+      · exact Or.inl ⟨id, rfl⟩
+      · exact ih hk
     | reserved w => simp [bfExact] at hf
     | elemSize t w => simp [bfExact] at hf
     | fixed w c => exact ih (by simpa [chunkKeys] using hk)
